@@ -93,6 +93,10 @@ func NewWaitCloserFromContext(pctx context.Context, stopFun func(error)) WaitClo
 		case <-pctx.Done():
 			wc.Close(pctx.Err())
 		case <-wc.Done():
+			// wc.ctx is a child of pctx : both are ready when pctx is cancelled
+			if err := pctx.Err(); err != nil {
+				wc.Close(err)
+			}
 		}
 	}, nil)
 
